@@ -206,3 +206,92 @@ func itoa(i int) string {
 	}
 	return s
 }
+
+// runC06Cold is the cold-start variant: the process has not parsed anything yet, so the very
+// first Parse calls of the process (lazy initialisation of the parser) happen concurrently.
+// Expectations are computed after the tasks were joined.
+func runC06Cold() *RunResult {
+	w := &World{prop: "C06", race: true}
+	nt := 2 + rn(6)
+	dg := docGen{useNumber: chance(30)}
+	nd := 1 + rn(2)
+	for i := 0; i < nd; i++ {
+		w.docs = append(w.docs, newDoc(dg.doc(false)))
+	}
+	for ti := 0; ti < nt; ti++ {
+		t := &Task{id: ti}
+		n := 1 + rn(4)
+		for k := 0; k < n; k++ {
+			cfg := genCfg(true)
+			di := rn(nd)
+			var p *PathSpec
+			switch rn(8) {
+			case 0:
+				p = genFailPath()
+			default:
+				p = genPathFor(w.docs[di].Val, cfg.Funcs, false, 3, 1)
+			}
+			if chance(50) {
+				t.ops = append(t.ops, &Op{Kind: opRetrieve, Path: p, Cfg: cfg, Doc: di})
+			} else {
+				t.ops = append(t.ops, &Op{Kind: opParse, Path: p, Cfg: cfg, Slot: 0})
+				t.ops = append(t.ops, &Op{Kind: opCall, Slot: 0, Path: p, Cfg: cfg, Doc: di})
+			}
+		}
+		w.tasks = append(w.tasks, t)
+	}
+	// contention right at the first lock: small random gaps or a switch at the lock seams
+	w.cfg.Strategy = simrt.StratRandom
+	w.cfg.GapMean = []int{2, 8, 32}[rn(3)]
+	if chance(50) {
+		w.cfg.Strategy = simrt.StratSeam
+		w.cfg.TargetSeam = []int{simrt.SeamBeforeLock - simrt.MaxSites, simrt.SeamAfterLock - simrt.MaxSites, simrt.SeamBeforeUnlock - simrt.MaxSites}[rn(3)]
+		w.cfg.GapMean = 64
+	}
+	w.cfg.PoolPolicy = rn(5)
+	w.cfg.MapPolicy = rn(5)
+	res := w.run()
+	w.progressVerdict(res)
+	if res.Violation != nil || res.Stats.Abort != 0 {
+		return res
+	}
+	// post-phase: run-alone expectations
+	simrt.SetMode(simrt.ModeSolo)
+	ref := &Recorder{}
+	for _, t := range w.tasks {
+		var last *ParsedFn
+		for _, o := range t.ops {
+			if !o.Done {
+				continue
+			}
+			exp, explog := "", ""
+			switch o.Kind {
+			case opParse:
+				last = soloParse(o.Path, o.Cfg)
+				exp = last.Out
+			case opCall:
+				pf := soloParse(o.Path, o.Cfg)
+				exp, explog = soloEval(pf, deepCopy(w.docs[o.Doc%nd].Val), o.Faults, ref)
+			case opRetrieve:
+				pf := soloParse(o.Path, o.Cfg)
+				exp, explog = soloEval(pf, deepCopy(w.docs[o.Doc%nd].Val), o.Faults, ref)
+				if pf.Fn == nil {
+					exp = pf.Out
+				}
+			}
+			res.Judged++
+			if o.Got != exp || o.GotLog != explog {
+				res.Violation = &Violation{Class: "C06:outcome-differs-from-run-alone", Key: o.Path.Text,
+					Detail: "cold start (first Parse calls of the process made concurrently): " + o.String() + "\n  expected " + clip(exp, 300) + " log=" + clip(explog, 200)}
+				break
+			}
+		}
+		_ = last
+		if res.Violation != nil {
+			break
+		}
+	}
+	simrt.SetMode(simrt.ModeOff)
+	res.Probes["cold-start-run"]++
+	return res
+}
